@@ -5,9 +5,10 @@ import PsModel.Spec.C02
 namespace PsModel.C02
 open PsModel
 
-/-- the class lattice used by the harness: 0 = Exception (matches all), 10 = E0, 11 = E1 ⊂ E0, 12 = E2,
-100 = RuntimeError, 101 = AssertionError -/
-def drvSub (a b : Nat) : Bool := a == b || b == 0 || (a == 11 && b == 10)
+/-- the class lattice used by the harness: 0 = Exception (every class that is not BaseException-only), 1 = BaseException
+(everything), 10 = E0, 11 = E1 ⊂ E0, 12 = E2, 100 = RuntimeError, 101 = AssertionError, 102 = TypeError;
+BaseException-only (`baseOnly`): 200 = B0, 201 = CancelledError, 202 = SystemExit, 203 = KeyboardInterrupt, 204 = GeneratorExit -/
+def drvSub (a b : Nat) : Bool := a == b || (b == 0 && !baseOnly a) || b == 1 || (a == 11 && b == 10)
 
 def optNat? : Sexp → Option (Option Nat)
   | .atom "-" => some none
@@ -34,6 +35,7 @@ partial def stmt? : Sexp → Option Stmt
   | .list [.atom "ret", v] => v.nat?.map .ret
   | .list [.atom "raise", c, cause] => do let c ← c.nat?; let k ← optNat? cause; pure (.raise c k)
   | .list [.atom "assert", i] => i.nat?.map .assert_
+  | .list [.atom "S", i] => i.nat?.map .suspend
   | .list [.atom "if", i, b, o] => do pure (.ite (← i.nat?) (← block? b) (← block? o))
   | .list [.atom "while", i, b, o] => do pure (.while_ (← i.nat?) (← block? b) (← block? o))
   | .list [.atom "for", i, b, o] => do pure (.for_ (← i.nat?) (← block? b) (← block? o))
@@ -77,11 +79,23 @@ def showRun (r : Option (Except Exc (Option Nat)) × World) : String :=
 def fuel : Nat := 1000000
 
 def cfg? : Sexp → Option Cfg
-  | .list [a, b] => do pure { loopElsePropagates := (← a.bool?), withNested := (← b.bool?) }
+  | .list [a, b, c] => do pure { loopElsePropagates := (← a.bool?), withNested := (← b.bool?), catchesBase := (← c.bool?) }
   | _ => none
+
+def mev? : Sexp → Option MEv
+  | .list [.atom "ret", a, n, v] => do pure (.ret (← a.nat?) (← n.nat?) (← v.nat?))
+  | .list [.atom "take", a] => a.nat?.map .take
+  | _ => none
+
+def showRets (rs : List (Nat × Option Nat)) : String :=
+  ",".intercalate (rs.map fun (a, v) => match v with | some v => s!"{a}={v}" | none => s!"{a}=None")
 
 def handle (x : Sexp) : String :=
   match x with
+  | .list (.atom "markers" :: evs) =>
+    match evs.mapM mev? with
+    | some es => s!"model={showRets (MStore.run Current.markerAlloc es)} spec={showRets (RetSpec.run es)}"
+    | none => "err parse"
   | .list [.atom "run", .list (.atom "tape" :: tape), body] =>
     match tape.mapM Sexp.nat?, block? body with
     | some t, some b =>
